@@ -10,7 +10,10 @@ import (
 	"sync/atomic"
 	"time"
 
+	"k8s.io/apimachinery/pkg/util/validation/field"
+
 	proxyv1alpha1 "github.com/kubewharf/kubegateway/pkg/apis/proxy/v1alpha1"
+	"github.com/kubewharf/kubegateway/pkg/apis/proxy/v1alpha1/validation"
 	"github.com/kubewharf/kubegateway/pkg/flowcontrols"
 
 	"verifharness/bed"
@@ -33,7 +36,9 @@ func boundaryScenarios(r *vkit.R) {
 	}
 	var list []bc
 	for _, p := range []bc{{q: 1, b: 1, valid: true}, {q: 1, b: 1000, valid: true}, {q: 1000000, b: 1000000, valid: true}, {q: 1000000, b: 1000},
-		{q: 3, b: 0}, {q: 16777215, b: 16777215, valid: true}} {
+		{q: 3, b: 0}, {q: 16777215, b: 16777215, valid: true},
+		// beyond 2^24 float32(qps) is not exact (16777217 -> 16777216, 16777219 -> 16777220, 2^31-1 -> 2^31); int32 / int limits
+		{q: 16777217, b: 16777217, valid: true}, {q: 16777219, b: 100}, {q: 2147483647, b: 2147483647, valid: true}, {q: 2147483647, b: 1}, {q: 1, b: 2147483647, valid: true}} {
 		for _, c := range []int{1, 4} {
 			p.callers = c
 			list = append(list, p)
@@ -125,6 +130,9 @@ func boundaryScenarios(r *vkit.R) {
 				fmt.Sprintf("token bucket qps=%d burst=%d: after at least %.6fs without any attempt only %d of %d immediate attempts were admitted, required %.0f", s.q, s.b, t, got, nAtt, want), w)
 		}
 		r.Eval(1)
+		if s.q > 1<<24 || s.b > 1<<24 {
+			r.Count("boundary_value_scenarios_beyond_2^24", 1)
+		}
 		r.Count("boundary_value_scenarios", 1)
 		if refusedSeen {
 			r.Count("boundary_value_scenarios_with_refusals", 1)
@@ -250,4 +258,108 @@ func siblingHammered(r *vkit.R) {
 		r.Count("sibling_hammered_attempts_on_sibling", len(logs[1])+len(logs[2]))
 		r.Distinct(vkit.Hash64("sibling", nn.class, fmt.Sprint(q, b)))
 	})
+}
+
+// refusedByValidation observes (does not assume) that the value classes this check leaves out cannot be stored: the
+// UpstreamCluster validation refuses qps <= 0, negative burst and burst < qps... only the first two are left out here.
+func refusedByValidation(r *vkit.R) {
+	for _, p := range [][2]int32{{0, 3}, {-5, -1}, {-5, 3}, {5, -1}, {-2147483648, -1}} {
+		fc := &proxyv1alpha1.FlowControl{Schemas: tbSpec(p[0], p[1], "", 1).Schemas}
+		if _, errs := validation.ValidateFlowControl(fc, field.NewPath("spec")); len(errs) > 0 {
+			r.Count("out_of_range_pairs_refused_by_validation", 1)
+		} else {
+			r.Count("out_of_range_pairs_ACCEPTED_by_validation", 1)
+			r.Set("out_of_range_pair_accepted_example", fmt.Sprintf("qps=%d burst=%d", p[0], p[1]))
+		}
+	}
+}
+
+// longWindow: one bucket observed for a long stretch (quick ~5 s, thorough ~150 s) at low CPU cost: a single caller attempts
+// every 1-40 ms with occasional idle periods of 0.3-1.5 s; no-op syncs meanwhile. The same one-pass upper bound covers every
+// window up to the whole stretch; every idle period is followed by a lower-bound check. Runs beside the other parts.
+func longWindow(r *vkit.R) {
+	total := 5 * time.Second
+	if !r.Quick() {
+		total = 150 * time.Second
+	}
+	g := r.Rng.Fork("long")
+	q, b := int32(40), int32(8)
+	ctx, cancel := context.WithCancel(context.Background())
+	lim := flowcontrols.NewUpstreamLimiter(ctx, "c06-long", "", nil)
+	defer func() {
+		lim.Sync(proxyv1alpha1.FlowControl{})
+		cancel()
+	}()
+	lim.Sync(tbSpec(q, b, "", 1))
+	var evs []ev
+	attempt := func() bool {
+		tc := bed.Now()
+		fc := lim.GetOrDefault(tbName)
+		ok := fc.TryAcquire()
+		tr := bed.Now()
+		if ok {
+			fc.Release()
+		}
+		evs = append(evs, ev{tc: tc, tr: tr, ok: ok})
+		return ok
+	}
+	start := bed.Now()
+	filler := int32(1)
+	lbChecks := 0
+	for iter := 0; bed.Now()-start < int64(total); iter++ { // the length of the observation, not a verdict
+		if iter%50 == 1 || g.Chance(0.01) {
+			// drain, idle, burst
+			refused := false
+			for k := 0; k < int(b)+50; k++ {
+				if !attempt() {
+					refused = true
+					break
+				}
+			}
+			prevEnd := evs[len(evs)-1].tr
+			time.Sleep(time.Duration(300+g.Intn(1200)) * time.Millisecond)
+			from := len(evs)
+			got := 0
+			for k := 0; k < int(b)+3; k++ {
+				if attempt() {
+					got++
+				}
+			}
+			t := float64(evs[from].tc-prevEnd) / 1e9
+			want := math.Min(math.Floor(float64(q)*t-slack), float64(b))
+			if refused {
+				lbChecks++
+			}
+			if float64(got) < want {
+				r.Violation("C06/limiter/stricter-than-configured/long-window",
+					fmt.Sprintf("token bucket qps=%d burst=%d, %.1fs into a long run: after at least %.6fs idle only %d immediate attempts were admitted, required %.0f", q, b, float64(evs[from].tc-start)/1e9, t, got, want),
+					map[string]interface{}{"qps": q, "burst": b, "idle_s_at_least": t, "admitted": got, "required": want})
+			}
+			continue
+		}
+		attempt()
+		if g.Chance(0.1) {
+			filler++
+			lim.Sync(tbSpec(q, b, "", filler)) // no-op for the bucket
+		}
+		time.Sleep(time.Duration(1+g.Intn(40)) * time.Millisecond)
+	}
+	var adm []ev
+	for _, e := range evs {
+		if e.ok {
+			adm = append(adm, e)
+		}
+	}
+	span := float64(bed.Now()-start) / 1e9
+	if excess, i0, j0, R := upperBound(adm, q, b); excess > slack {
+		T := float64(R-adm[i0].tc) / 1e9
+		r.Violation("C06/limiter/over-admission/long-window",
+			fmt.Sprintf("token bucket qps=%d burst=%d observed for %.1fs: %d requests admitted within a window of %.3fs, bound %.3f", q, b, span, j0-i0+1, T, float64(b)+float64(q)*T),
+			map[string]interface{}{"qps": q, "burst": b, "window_s": T, "admitted_in_window": j0 - i0 + 1})
+	}
+	r.Eval(1)
+	r.Set("long_window_seconds", span)
+	r.Count("long_window_attempts", len(evs))
+	r.Count("long_window_admissions", len(adm))
+	r.Count("long_window_lower_bound_checks_after_refusal", lbChecks)
 }
